@@ -140,6 +140,8 @@ class EvalMixin:
     def module_global(self, st, path, name, depth=0):
         if depth > 8:
             raise Unsupported("import chain too deep for " + name)
+        if name == "__file__" and path is not None:
+            return SV("str", z3.String("file!" + path))
         if path is not None and self.fe.exists(path):
             mod = self.fe.load(path)
             if (path, name) in self.mutable_globals and name in mod.assigns:
@@ -460,6 +462,26 @@ class EvalMixin:
                 return [Res(st, self.new_list(st, z3.Concat(sa, sb), a.h))]
             if a.k == "seqe" and b.k == "seqe":
                 return [Res(st, SV("seqe", z3.Concat(a.t, b.t)))]
+            if a.k == "val" and b.k == "val" and not st.spec:
+                # dynamic `+`: str+str / bytes+bytes concatenate, int+int adds, anything else is a TypeError
+                out = []
+                both_s = z3.And(Val.is_StrV(a.t), Val.is_StrV(b.t))
+                both_y = z3.And(Val.is_BytesV(a.t), Val.is_BytesV(b.t))
+                both_i = z3.And(Val.is_IntV(a.t), Val.is_IntV(b.t))
+                for s1, c1 in self.fork(st, both_s, 'add:str'):
+                    if c1:
+                        out.append(Res(s1, SV("str", z3.Concat(Val.sv(a.t), Val.sv(b.t)))))
+                        continue
+                    for s2, c2 in self.fork(s1, both_y, 'add:bytes'):
+                        if c2:
+                            out.append(Res(s2, SV("bytes", z3.Concat(Val.yv(a.t), Val.yv(b.t)))))
+                            continue
+                        for s3, c3 in self.fork(s2, both_i, 'add:int'):
+                            if c3:
+                                out.append(Res(s3, SV("int", Val.iv(a.t) + Val.iv(b.t))))
+                            else:
+                                out.append(self.raise_new(s3, "TypeError"))
+                return out
             if a.k == "val" and not st.spec:
                 # TypeError unless int (element typed by declaration would have been unboxed)
                 return self.may_raise(st, Val.is_IntV(a.t), "TypeError",
@@ -590,6 +612,8 @@ class EvalMixin:
         h = d.h
         if not h:
             return None
+        if h.startswith("str->"):
+            h = h[5:]
         if "=" not in h:
             return h
         kt = z3.simplify(key.t) if key.k == "str" else None
@@ -644,6 +668,11 @@ class EvalMixin:
                     return [Res(st, SV("cls", clsof(obj.t)))]
                 return [Res(st, SV("cls", clsof(obj.t), h=obj.h))]
             mem = self.find_member(obj.h, attr) if obj.h else None
+            if mem is not None and isinstance(mem[2], ast.Assign) and isinstance(mem[2].value, ast.Call):
+                fnm = mem[2].value.func
+                fnm = fnm.id if isinstance(fnm, ast.Name) else getattr(fnm, "attr", "")
+                if fnm in ("field", "pmap_field", "pset_field", "pvector_field", "pyrsistent_field"):
+                    mem = None      # a pyrsistent field declaration: the value lives on the instance
             if mem is not None:
                 p, c, n = mem
                 if isinstance(n, ast.FunctionDef):
@@ -658,6 +687,8 @@ class EvalMixin:
                     return [Res(st, SV("bound", f, x=obj))]
                 return [Res(st, self.class_attr(st, p, c, attr, n))]
             h = self.field_hint(obj.h, attr)
+            if not st.spec:
+                self.check_held(st, obj, attr)
             v = self.hget(st, attr, obj.t)
             if h is None or h.startswith("Opt[") or h in ("Any", "val"):
                 st.assume(z3.Implies(Val.is_RefV(v), z3.And(Val.rv(v) >= 1, Val.rv(v) <= self.alloc_bound(st, Val.rv(v)))))
